@@ -1664,7 +1664,9 @@ func ruleC10LoaderNeverNil(c *Ctx) {
 		before := false
 		c.eachFam(entry, func(j ssa.Instruction) {
 			if call, ok := j.(*ssa.Call); ok && call.Call.StaticCallee() == m.docFn {
-				if core.ReachableFromInstr(st, call) && !core.ReachableFromInstr(call, st) {
+				// (the store may sit in a helper that sets the resolver up: judged where the helper is called)
+				a, b := liftTo(st, entry), liftTo(call, entry)
+				if a != nil && b != nil && a.Parent() == b.Parent() && core.ReachableFromInstr(a, b) && !core.ReachableFromInstr(b, a) {
 					before = true
 				}
 			}
